@@ -53,3 +53,65 @@ meta("C11",
      tested_only="smoothing window k > 0 of get_plottable_data (model df_plottable vs implementation for k = 1,2,3); histories of adds through the multivariate profiles",
      rule="random discrete profiles with <= 4 events on the k/8 grid, events on the edge times, operands without events, multiplicities 1-3; all intervals on the k/16 grid sampled; distinct by canonical encoding",
      assumptions=[A_FLOAT, A_CY, A_RQ])
+
+meta("C02",
+     proved="for ALL valid train pairs, RI in {F,T}, every MRTS: the SPIKE scan of the Python fall-back (incremental nearest-spike search restarted at the other cursor, mirrored auxiliary spikes, simultaneous-spike branch, edge branches) = declarative spike_spec at both one-sided limits of every piece; early-exit nearest-spike search = global minimum; breakpoints = ISI breakpoints; both limits 0 at shared spikes; .pyx text computes the same; plain / RI formulas",
+     tested_only="model = /repo (correspondence kernels 2/51 + helpers 3/4, both backends); implementation vs extracted spike_spec; float rounding",
+     assumptions=[A_FLOAT, A_CY, A_RQ])
+meta("C03",
+     proved="for ALL valid train pairs, every max_tau and MRTS: merged scan with look-back write = pairwise global definition sync_spec; window = definition; strict ties; mutual; one-to-one; adjacency; balanced counts; per-spike scan = single_spec; scan is clean (look-back never hits a marked / multiplicity-2 entry)",
+     tested_only="model = /repo (kernels 5/6/7/52 both backends incl. exact ties on the dyadic grid); implementation vs extracted sync_spec/single_spec",
+     assumptions=[A_FLOAT, A_CY, A_RQ])
+meta("C04",
+     proved="order profile = order_spec and directionality values = dir_spec for ALL valid pairs (same coincidence relation as C03); sign convention per pair; order values in {-1,0,1}; swap negates the order profile / exchanges value lists / negates un-normalised directionality (both backends); D(A,A)=0; matrix antisymmetric, zero diagonal; synfire relation F = 2*sum_{i<j} D_ij/((N-1)*spikes) (both backends); index selections = sub-list",
+     tested_only="model = /repo (kernels 8/9, API 63/71-75 with index selections, both backends); per-spike values averaged over N-1 trains via correspondence of directionality_values; all-empty input is known finding F13",
+     assumptions=[A_FLOAT, A_CY, A_RQ])
+meta("C05",
+     proved="bivariate: ISI distance = pwc average of the profile for both backends, whole recording and every sub-interval; compiled single-pass SPIKE distance = average of the profile; SPIKE-Sync values = event sums of the profile strictly inside the interval (both backends), ratio with the convention 1; order (c, mp) = profile sums (both backends); backends agree",
+     tested_only="multivariate scalar vs average of the multivariate profile over sub-intervals (oracle on the implementation, both backends; theorem in progress in Lem_MultiAPI.v); SPIKE distance over sub-intervals on the compiled path goes through the profile by construction",
+     assumptions=[A_FLOAT, A_CY, A_RQ])
+meta("C08",
+     proved="shift and scale (with MRTS, max_tau scaled) transform only the time axis of the ISI, SPIKE, SPIKE-Sync, order profiles and leave directionality values / filter indicators unchanged; time reversal mirrors the ISI, SPIKE (limits exchanged) and SPIKE-Sync profiles, mirrors and negates order/directionality (spec level), integrals unchanged",
+     tested_only="the same relations through the public API on the implementation (oracle, both backends); order value of all-empty input is known finding F13",
+     rule="exhaustive <=3-spike pairs on the 9-point grid (sampled 2500) + random pairs, random dyadic shift c and scale k (ties preserved), mirror about the midpoint; nine API results per pair; distinct by canonical encoding",
+     assumptions=[A_FLOAT, A_CY, A_RQ])
+meta("C09",
+     proved="pwc_add / pwl_add (merge + tail copies) = declarative pointwise sum on the strictly increasing union; values, integrals add; commutative, associative (pwc), mul pointwise; for EVERY history of add/mul/copy/new: no error, well-formed, exactly the tracked linear combination (values at generic times, integral, breakpoints), also pwl; heap model: no two objects share an array, add/mul leave every other object untouched, copies independent, heap refines the value model",
+     tested_only="that numpy objects behave like the heap model (aliasing monitor: np.shares_memory between all live objects, operand snapshots) and model = /repo for the add routines / class methods (both backends)",
+     rule="all pairs of breakpoint sets with <=3 (thorough 4) interior points on the 1/6 resp. 1/8 grid with random values; random histories of <= 6 ops over 2-3 objects with aliasing monitor; a+b+c in all orders; distinct by canonical encoding",
+     assumptions=[A_FLOAT, A_CY, A_RQ, "Heap.v is a model of CPython/numpy object semantics (constructor copies, add rebinds, mul_scalar in place); its tie to numpy is the run-time monitor"])
+meta("C10",
+     proved="pwc/pwl integral over every [a,b] inside the support = exact overlap integral (both index-search branches); full support; additivity over adjacent intervals; ValueError bounds (pwc); average over one / several intervals; evaluation = piece value / mean of limits / one-sided limit; scalar path = list path; pwl plottable arrays",
+     tested_only="model = /repo for integral/avrg/__call__/get_plottable_data (py backend; class methods are pure Python); integer-valued input regression (fix 1359216)",
+     rule="random functions with <= 4 interior breakpoints on the 1/8 grid, values from {-2,-1,0,1/2,1,3}; intervals and evaluation times on the 1/16 grid (all relative positions) plus times 2^-40 beside a breakpoint; distinct by canonical encoding",
+     assumptions=[A_FLOAT, A_RQ])
+meta("C12",
+     proved="every routine whose .pyx text differs from the Python text is modelled separately and proved equal: Interpolate, get_tau, ISI profile (running nu), auxiliary spikes, SPIKE profile, sync/order/directionality/per-spike scans with the Cython window; single-pass isi/spike distance = average of the profile; single-pass coincidence / order / directionality values = sums over the profile",
+     tested_only="the .pyx files themselves are executed only through the de-cythoniser (Python semantics incl. cdivision emulation) against the model and against the fall-back on identical arguments; literal-duplicate routines (three add routines) share one model; C-level behaviour of a real build is outside",
+     assumptions=[A_FLOAT, A_CY, A_RQ])
+meta("C17",
+     proved="filter = declarative filter_spec for all lists of valid trains, thresholds, max_tau, MRTS, both backends; kept iff count STRICTLY above thr*(N-1), count from the pairwise coincidence definition; per-spike scan = pairwise definition; kept/removed = partition in original order on the original interval; monotone in the threshold",
+     tested_only="link of the per-spike count to the entry of the multivariate SPIKE-Sync profile (oracle on the implementation for spike times unique to one train); inputs unchanged (snapshot monitor)",
+     rule="random lists of 2-5 trains (k/16 grid) + all triples of <=2-spike trains on the 5-point grid (sampled), thresholds k/(N-1) hit exactly and k/16; distinct by canonical encoding",
+     assumptions=[A_FLOAT, A_CY, A_RQ])
+meta("C19",
+     proved="framing: split(join) = tokens; save then load returns the same trains in the same order (empty trains preserved / dropped with ignore_empty_lines); comment lines skipped; time-series import = start+(k+1)*bin with edges [start, start+n*bin]; scalar edge = [0, edge]",
+     tested_only="decimal conversion (repr round trip at precision 17, correct rounding at lower precision), np.fromstring's whitespace rules, sorting of unsorted lines: round trip on the implementation with random doubles, 5 separators, 4 precisions, 3 comment strings; token-level model vs implementation",
+     rule="random lists of 1-5 trains with 0-9 spikes (4 magnitudes), separators ' ', ',', ';', tab, ', ', precisions 3/8/12/17, comment strings #, %, //; random 0/1 matrices; distinct by iteration",
+     assumptions=[A_FLOAT, "PARTIAL BY NATURE: float formatting/parsing is CPython/libc behaviour outside the model (tokens are opaque)"])
+
+meta("C06",
+     proved="divide-and-conquer summation = plain sum for closed associative add routines; ISI multivariate profile = mean of the N(N-1)/2 pair profiles at every time, breakpoints = strictly increasing union, independent of list order (representation equality); multivariate ISI distance = mean of pair distances = average of the multivariate profile on every interval, order independent; SPIKE-Sync multivariate profile = per-time sums of counts/multiplicities over all pairs, order independent; matrices = bivariate values, symmetric, diagonal 0 / 1; generic pair mean invariant under permutation for symmetric measures",
+     tested_only="SPIKE multivariate profile = mean of pair profiles at sample times and one-sided limits (oracle on the implementation, both backends; the piecewise-linear add lemmas it needs are proved in Lem_Pwl/Lem_MultiAPI but the assembly is not); permutation invariance of the SPIKE results (oracle)",
+     rule="random lists of 2-5 trains (k/16 grid, empty / repeated / shared-spike trains) + all triples of <=2-spike trains on the 5-point grid (sampled); one random permutation per list; distinct by canonical encoding",
+     assumptions=[A_FLOAT, A_CY, A_RQ])
+meta("C07",
+     proved="ISI profile values and distance in [0,1]; SPIKE profile values in [0,1] (incl. the non-linear upper bound, supremum 1) for plain/RI/adaptive; SPIKE-Sync entries in [0, multiplicity], value in [0,1] on every interval; order in [-1,1]; directionality values in {-1,0,1}; ISI / SPIKE / SPIKE-Sync profiles symmetric in their arguments (hence all scalars, both backends); self comparison: ISI 0, SPIKE 0, SPIKE-Sync 1, directionality 0",
+     tested_only="SPIKE distance over sub-intervals lies in [0,1] (follows from the profile bound; checked by the oracle on the implementation); finiteness of float results",
+     rule="exhaustive <=3-spike pairs on the 9-point grid (sampled 3500) + random pairs; random MRTS/max_tau/RI, whole recording and one random sub-interval; distinct by canonical encoding",
+     assumptions=[A_FLOAT, A_CY, A_RQ])
+meta("C15",
+     proved="raising MRTS never increases an ISI or SPIKE profile value (breakpoints unchanged) and never removes a SPIKE-Sync coincidence; MRTS below every ISI of the trains involved changes nothing (ISI, SPIKE, SPIKE-Sync); isi_lengths = interval lengths of the definition (edge rules), all positive; thresh^2 = pooled mean square; MRTS=0 formulas are the plain ones",
+     tested_only="'auto' plumbing per entry point (MRTS='auto' == passing default_thresh explicitly; bivariate from the pair, multivariate from the list): oracle on the implementation, both backends; np.sqrt; MRTS omitted == 0",
+     rule="exhaustive <=3-spike pairs on the 9-point grid (sampled 2500) + random pairs, ordered MRTS pairs from {0,1/8,1/4,3/8,1/2,1,2}, a threshold below every ISI, 'auto'; random lists for the multivariate forms; distinct by canonical encoding",
+     assumptions=[A_FLOAT, A_CY, A_RQ, "sqrt is not modelled: the theorems speak about the squared threshold"])
